@@ -843,16 +843,10 @@ class RTDCWriter:
                 else:
                     val = ufunc(dset)
                 dset.attrs[uname] = val
-            # store ufunc data for mean (weighted with size)
-            mean_a = dset.attrs.get("mean", None)
-            if mean_a is not None:
-                num_a = offset
-                mean_b = np.nanmean(data)
-                num_b = data.size
-                mean = (mean_a * num_a + mean_b * num_b) / (num_a + num_b)
-            else:
-                mean = np.nanmean(dset)
-            dset.attrs["mean"] = mean
+            # store ufunc data for mean (always computed from the entire
+            # dataset, because the nanmeans of two parts cannot be combined
+            # without knowing how many nan values each part contains)
+            dset.attrs["mean"] = np.nanmean(dset)
         else:
             chunk_size = dset.chunks[0]
             # populate higher-dimensional data in chunks
